@@ -104,6 +104,7 @@ namespace sim
         uint64_t last_activity[NG_MAX_ACTORS];
         uint64_t send_calls  = 0;
         int accept_failures  = 0;               // the next n accept4() calls of gated threads fail with EMFILE
+        bool park_threads_at_start = false;     // captured threads wait for the controller before running their body
         bool hold_spares_send = false;          // a held descriptor blocks sendfile() only (header goes out, file body stalls)
         std::set<int> blocked;                  // held descriptors that have answered would-block since they were held
         // all of this is touched by one thread at a time (gate), so no locking
@@ -134,12 +135,15 @@ namespace sim
         void* (*fn)(void*);
         void* arg;
         int id;
+        bool parkAtStart;
     };
     inline void* tramp(void* p)
     {
         Tramp t = *static_cast<Tramp*>(p);
         delete static_cast<Tramp*>(p);
         ng_adopt(t.id);
+        if (t.parkAtStart)
+            ng_park_at(2, nullptr); // the controller decides when this thread begins
         void* r = t.fn(t.arg);
         ng_thread_end();
         return r;
@@ -150,14 +154,15 @@ extern "C" {
 int pthread_create(pthread_t* th, const pthread_attr_t* attr, void* (*fn)(void*), void* arg)
 {
     static auto fnreal = sim::real<int (*)(pthread_t*, const pthread_attr_t*, void* (*)(void*), void*)>("pthread_create");
-    bool capture;
+    bool capture, parkAtStart;
     {
         sim::TsanIgnore ign;
-        capture = sim::S().capture_threads;
+        capture     = sim::S().capture_threads;
+        parkAtStart = sim::S().park_threads_at_start;
     }
     if (!capture)
         return fnreal(th, attr, fn, arg);
-    auto* t = new sim::Tramp { fn, arg, ng_reserve() };
+    auto* t = new sim::Tramp { fn, arg, ng_reserve(), parkAtStart };
     return fnreal(th, attr, sim::tramp, t);
 }
 
@@ -300,8 +305,24 @@ static bool sim_has_plan(int fd)
 // threads do their socket I/O through the raw system calls, which TSan does not see.
 #if defined(__SANITIZE_THREAD__)
 #include <sys/syscall.h>
-static ssize_t sim_raw_send(int fd, const void* b, size_t n, int fl) { return syscall(SYS_sendto, fd, b, n, fl, nullptr, 0); }
-static ssize_t sim_raw_recv(int fd, void* b, size_t n, int fl) { return syscall(SYS_recvfrom, fd, b, n, fl, nullptr, nullptr); }
+// (the kernel's accesses to the user buffer are invisible with a raw system call: they are reported to TSan as
+// accesses of the calling thread, so that a buffer shared between threads still shows up as a race)
+extern "C" void __tsan_read_range(void* addr, unsigned long size);
+extern "C" void __tsan_write_range(void* addr, unsigned long size);
+static ssize_t sim_raw_send(int fd, const void* b, size_t n, int fl)
+{
+    ssize_t r = syscall(SYS_sendto, fd, b, n, fl, nullptr, 0);
+    if (r > 0)
+        __tsan_read_range(const_cast<void*>(b), (unsigned long)r);
+    return r;
+}
+static ssize_t sim_raw_recv(int fd, void* b, size_t n, int fl)
+{
+    ssize_t r = syscall(SYS_recvfrom, fd, b, n, fl, nullptr, nullptr);
+    if (r > 0)
+        __tsan_write_range(b, (unsigned long)r);
+    return r;
+}
 #endif
 
 ssize_t send(int fd, const void* buf, size_t len, int flags)
@@ -472,6 +493,11 @@ namespace sim
         int r = ng_step(a, 20000);
         if (r == -1)
             throw HarnessError { "actor " + std::to_string(a) + " did not return to epoll_wait within 20 s" };
+        // threads created during the step park on their own (at their start, or at their first epoll_wait): the
+        // set of enabled actors must not depend on how fast they get there
+        for (int b = 0; b < ng_count(); ++b)
+            if (b != a && ng_wait_parked(b, 10000) != 0)
+                throw HarnessError { "actor " + std::to_string(b) + " (created during a step) did not park" };
     }
     // run loops in canonical order (lowest actor id first) until nobody is ready
     inline int settle(int maxSteps = 400)
@@ -591,18 +617,33 @@ namespace sim
         int workers = 1;
         std::vector<int> fdsBefore;
 
-        void start(const std::shared_ptr<Http::Handler>& handler, Http::Endpoint::Options opts, int nworkers)
+        // gatedStart: the endpoint's threads are parked before their first instruction; the caller steps them
+        // (start-up interleavings). Otherwise all of them are run to their first epoll_wait.
+        void start(const std::shared_ptr<Http::Handler>& handler, Http::Endpoint::Options opts, int nworkers, bool gatedStart = false)
         {
             fdsBefore = list_fds();
             workers   = nworkers;
             ng_reset();
             configure(true, true, true);
             ng_set_active(1);
+            {
+                TsanIgnore ign;
+                S().park_threads_at_start = gatedStart;
+            }
             Address addr(Ipv4::loopback(), Port(0));
             ep = std::make_shared<Http::Endpoint>(addr);
             ep->init(opts.threads(nworkers));
             ep->setHandler(handler);
             ep->serveThreaded();
+            if (gatedStart)
+            {
+                for (int waited = 0; ng_count() < 1 && waited < 5000; ++waited)
+                    usleep(1000);
+                if (ng_wait_parked(0, 10000) != 0)
+                    throw HarnessError { "acceptor thread did not park at its start" };
+                port = (int)ep->getPort();
+                return;
+            }
             // acceptor + workers must all reach their first epoll_wait
             for (int waited = 0; ng_count() < 1 + nworkers && waited < 5000; ++waited)
                 usleep(1000);
